@@ -238,11 +238,11 @@ def expo_always_exposed_full_statement : Prop :=
 
 /-- Type/help conflicts: after any history in which the *first* instrument mapped to family `n` had type `t1` and
 description `d1`, a further instrument mapped to `n` is dropped iff its type differs; the cache is unchanged (the first
-definition stays), and with the same type but another description the first description is returned as help. -/
+definition stays), and with the same type the description returned for the series is the first one. -/
 theorem type_conflict_drops_second (pre mid : List Spec.Op) (n d1 d2 : Bytes) (t1 t2 : MType)
     (hpre : ∀ o ∈ pre, o.1 ≠ n) :
     validate (Spec.famsAfter [] (pre ++ (n, d1, t1) :: mid)) n d2 t2 =
-      (Spec.famsAfter [] (pre ++ (n, d1, t1) :: mid), t1 != t2, if t1 = t2 ∧ d1 ≠ d2 then d1 else []) := by
+      (Spec.famsAfter [] (pre ++ (n, d1, t1) :: mid), t1 != t2, if t1 = t2 then d1 else []) := by
   have hfind : (Spec.famsAfter [] (pre ++ (n, d1, t1) :: mid)).find? (fun f => f.name == n) = some ⟨n, d1, t1⟩ := by
     have : Spec.famsAfter [] (pre ++ (n, d1, t1) :: mid) =
         Spec.famsAfter (validate (Spec.famsAfter [] pre) n d1 t1).1 mid := by
@@ -261,30 +261,61 @@ theorem type_conflict_drops_second (pre mid : List Spec.Op) (n d1 d2 : Bytes) (t
     · simp [hd]
   · simp [ht]
 
-/-- Help conflicts, the part that holds: if the first description of a family is not empty, every later series of the
-same type is exposed with that first description (so the registry sees one help per family). -/
-theorem help_conflict_first_wins_partial (pre mid : List Spec.Op) (n d1 d2 : Bytes) (t : MType)
-    (hpre : ∀ o ∈ pre, o.1 ≠ n) (hd1 : d1 ≠ []) :
-    effectiveHelp d2 (validate (Spec.famsAfter [] (pre ++ (n, d1, t) :: mid)) n d2 t).2.2 = d1 := by
+/-- Help conflicts (full statement, after the F34 repair de0451a): after any history in which the first instrument mapped
+to family `n` had description `d1` — empty or not — every later instrument of the same type mapped to `n` is kept and
+its series carry exactly `d1`. -/
+theorem help_conflict_first_wins (pre mid : List Spec.Op) (n d1 d2 : Bytes) (t : MType)
+    (hpre : ∀ o ∈ pre, o.1 ≠ n) :
+    (validate (Spec.famsAfter [] (pre ++ (n, d1, t) :: mid)) n d2 t).2 = (false, d1) := by
   rw [type_conflict_drops_second pre mid n d1 d2 t t hpre]
-  unfold effectiveHelp
-  by_cases hd : d1 = d2
-  · subst hd; simp
-  · simp [hd, hd1]
+  simp
 
-/-- F34 (known finding), witness: first description empty, second not — the `""`
-returned as help is read by Collect as "no conflict", the second series keeps its own help, and two different helps
-reach the registry for one family (Gather then fails). -/
-theorem help_conflict_F34_witness :
-    effectiveHelp (b "second") (validate (Spec.famsAfter [] [(b "foo_total", [], MType.counter)]) (b "foo_total") (b "second")
-      MType.counter).2.2 = b "second" ∧
-    (validate (Spec.famsAfter [] [(b "foo_total", [], MType.counter)]) (b "foo_total") (b "second") MType.counter).2.1 = false := by
+/-- … and therefore the registry sees one help and one type per family: every metric the `for _, m := range Metrics`
+loop sends carries the help and type of the cache entry of its family name, which is the first one registered and never
+changes. (Registry.Gather's "has help … but should have …" / type mismatch errors cannot be triggered by Collect.) -/
+theorem collect_family_consistent (esc : Bytes → Bytes) (cfg : Cfg) (extra : List KV) :
+    ∀ (insts : List Inst) (fams : List Fam), ∀ e ∈ (collectInsts esc cfg extra fams insts).2,
+      (collectInsts esc cfg extra fams insts).1.find? (fun f => f.name == e.name) = some ⟨e.name, e.help, e.typ⟩ := by
+  intro insts
+  induction insts with
+  | nil => intro fams e he; simp [collectInsts] at he
+  | cons i rest ih =>
+    intro fams e he
+    unfold collectInsts at he ⊢
+    simp only at he ⊢
+    cases hn : getName esc cfg i.name i.unit i.dtype.mtype with
+    | none => simp [hn] at he
+    | some name =>
+      simp only [hn] at he ⊢
+      cases hv : validate fams name i.desc i.dtype.mtype with
+      | mk fams' dh =>
+        cases dh with
+        | mk drop help =>
+          simp only [hv] at he ⊢
+          cases drop with
+          | true => simp only [if_true] at he ⊢; exact ih fams' e he
+          | false =>
+            simp only [Bool.false_eq_true, if_false] at he ⊢
+            rcases List.mem_append.mp he with h1 | h2
+            · -- sent for this instrument: name/help/type are the cache entry just validated, which persists
+              obtain ⟨p, _, hp⟩ := List.mem_filterMap.mp h1
+              have hfields : e.name = name ∧ e.help = help ∧ e.typ = i.dtype.mtype := emitPoint_fields hp
+              obtain ⟨e1, e2, e3⟩ := hfields
+              rw [e1, e2, e3]
+              have hentry : fams'.find? (fun f => f.name == name) = some ⟨name, help, i.dtype.mtype⟩ := by
+                have := validate_entry fams name i.desc i.dtype.mtype
+                rw [hv] at this; exact this rfl
+              exact collectInsts_find_some esc cfg extra name _ rest fams' hentry
+            · exact ih fams' e h2
+
+/-- F34 (repaired in de0451a), documented on the OLD code: `validateMetricsOld` answered a description conflict whose
+first description is empty with help "", which the old call site read as "no conflict" — the second series kept its own
+help "second" although the family was registered with "". -/
+theorem help_conflict_F34_old_witness :
+    effectiveHelpOld (b "second")
+      (validateMetricsOld [⟨b "foo_total", [], MType.counter⟩] (b "foo_total") (b "second") MType.counter).2.2 = b "second" ∧
+    (validate [⟨b "foo_total", [], MType.counter⟩] (b "foo_total") (b "second") MType.counter).2.2 = [] := by
   decide
-
-/-- The full statement F34 refutes (type-checked, not proved): later series always carry the first description. -/
-def help_conflict_first_wins_full_statement : Prop :=
-  ∀ (pre mid : List Spec.Op) (n d1 d2 : Bytes) (t : MType), (∀ o ∈ pre, o.1 ≠ n) →
-    effectiveHelp d2 (validate (Spec.famsAfter [] (pre ++ (n, d1, t) :: mid)) n d2 t).2.2 = d1
 
 /-- Exemplars never touch the series: whatever exemplars a data point carries (accepted, refused, none), the metric that
 is sent — presence, name, help, type, labels, value/buckets — is the same. (A refused exemplar costs the exemplars, not
